@@ -266,9 +266,9 @@ def run(run_, ctx):
     # ---- F / P: summaries ---------------------------------------------------------------------------------------
     WANT = {
         "fnv1a64::hash_update": [
-            "if Lt(0, len(arg2)) == False: - => arg1",
-            "if Lt(0, len(arg2)) == True && Lt(1, len(arg2)) == False: #1 = core::num::<impl u64>::wrapping_mul(BitXor(arg1, (*arg2[0] as u64)), 1099511628211) => #1",
-            "if Lt(0, len(arg2)) == True && Lt(1, len(arg2)) == True: #1 = core::num::<impl u64>::wrapping_mul(BitXor(arg1, (*arg2[0] as u64)), 1099511628211); #2 = core::num::<impl u64>::wrapping_mul(BitXor(#1, (*arg2[1] as u64)), 1099511628211) => None [cut]",
+            "if len(arg2) <= 0: - => arg1",
+            "if 0 < len(arg2) && len(arg2) <= 1: #1 = core::num::<impl u64>::wrapping_mul(BitXor(arg1, (*arg2[0] as u64)), 1099511628211) => #1",
+            "if 0 < len(arg2) && 1 < len(arg2): #1 = core::num::<impl u64>::wrapping_mul(BitXor(arg1, (*arg2[0] as u64)), 1099511628211); #2 = core::num::<impl u64>::wrapping_mul(BitXor(#1, (*arg2[1] as u64)), 1099511628211) => None [cut]",
         ],
         "fnv1a64::hash_update_str": ["if always: #1 = core::str::<impl str>::as_bytes(arg2); #2 = key::hash::fnv1a64::hash_update(arg1, #1) => #2"],
         "fnv1a64::hash_ty_path": [
